@@ -130,8 +130,10 @@ class FastHierarchyAnalyzer(HierarchyAnalyzerBase):
                 option_node = sel_choice_opt_nodes[choice_node][i_opt]
                 graph_cache[cache_key] = graph = graph.get_for_apply_selection_choice(choice_node, option_node)
 
-            # Verify that indeed no selection_choices are left
-            if len([node for node in graph.choice_nodes if isinstance(node, SelectionChoiceNode)]) > 0:
+            # Verify that indeed no selection_choices are left (unless the graph became infeasible along the way: then
+            # no further choices are offered and the caller continues with the next candidate)
+            if len([node for node in graph.choice_nodes if isinstance(node, SelectionChoiceNode)]) > 0 \
+                    and graph.feasible:
                 raise RuntimeError(f'Selection-choice nodes left for dv: {opt_idx}')
             return tuple(taken_sel_opt), graph
 
